@@ -106,6 +106,91 @@ def to_z3(pattern: str, flags: int = 0):
     return _seq(list(tree))
 
 
+def group_patterns(pattern: str, flags: int = 0):
+    """[(z3 regex of the sub-pattern of capturing group i, always_participates)] for i = 1..n.
+    A group participates in every match iff it is not below an optional / repeated / alternative construct."""
+    tree = sre_parse.parse(pattern, flags)
+    out = {}
+
+    def walk(items, optional):
+        for op, av in items:
+            if op is sre_c.SUBPATTERN:
+                gid, _, _, sub = av
+                if gid is not None:
+                    out[gid] = (_seq(list(sub)), not optional)
+                walk(sub, optional)
+            elif op in (sre_c.MAX_REPEAT, sre_c.MIN_REPEAT):
+                lo, hi, sub = av
+                walk(sub, optional or lo == 0)
+            elif op is sre_c.BRANCH:
+                for b in av[1]:
+                    walk(b, True)
+
+    walk(tree, False)
+    return [out[i] for i in sorted(out)]
+
+
+def _has_group(items):
+    for op, av in items:
+        if op is sre_c.SUBPATTERN:
+            if av[0] is not None or _has_group(av[3]):
+                return True
+        elif op in (sre_c.MAX_REPEAT, sre_c.MIN_REPEAT):
+            if _has_group(av[2]):
+                return True
+        elif op is sre_c.BRANCH:
+            if any(_has_group(b) for b in av[1]):
+                return True
+    return False
+
+
+def decompose(pattern: str, subject, fresh, flags: int = 0):
+    """A successful match of an anchored pattern cuts the subject into one piece per pattern item; a capturing
+    group holds its piece.  Returns (constraints, {group id: (presence condition, piece term)}) describing *a*
+    parse of the subject - the one re found is one (sound for every consequence drawn from it).  Supported:
+    groups below concatenation and below ``?`` only; anything else raises ValueError (caller falls back)."""
+    tree = list(sre_parse.parse(pattern, flags))
+    cons, groups = [], {}
+
+    def seq(items, S, cond, top=False):
+        pieces = []
+        n = len(items)
+        for i, (op, av) in enumerate(items):
+            if op is sre_c.AT:
+                continue
+            if op is sre_c.LITERAL:
+                pieces.append(z3.StringVal(chr(av)))
+            elif op is sre_c.SUBPATTERN and (av[0] is not None or _has_group(av[3])):
+                P = fresh("grp")
+                seq(list(av[3]), P, cond)
+                if av[0] is not None:
+                    groups[av[0]] = (z3.And(cond) if cond else z3.BoolVal(True), P)
+                pieces.append(P)
+            elif op in (sre_c.MAX_REPEAT, sre_c.MIN_REPEAT) and _has_group(av[2]):
+                lo, hi, sub = av
+                if (lo, hi) != (0, 1):
+                    raise ValueError("capturing group below a repetition")
+                b = fresh("opt", bool_=True)
+                P = fresh("optpiece")
+                seq(list(sub), P, cond + [b])
+                cons.append(z3.Implies(z3.And(cond + [z3.Not(b)]) if cond else z3.Not(b), P == z3.StringVal("")))
+                pieces.append(P)
+            elif op is sre_c.BRANCH and any(_has_group(b) for b in av[1]):
+                raise ValueError("capturing group below an alternation")
+            else:
+                P = fresh("piece")
+                cons.append(z3.Implies(z3.And(cond), z3.InRe(P, _node(op, av))) if cond else z3.InRe(P, _node(op, av)))
+                pieces.append(P)
+        whole = z3.Concat(*pieces) if len(pieces) > 1 else (pieces[0] if pieces else z3.StringVal(""))
+        eq = S == whole
+        if top and n and items[-1][0] is sre_c.AT and items[-1][1] is sre_c.AT_END:
+            eq = z3.Or(eq, S == z3.Concat(whole, z3.StringVal("\n")))  # '$' also matches before a final newline
+        cons.append(z3.Implies(z3.And(cond), eq) if cond else eq)
+
+    seq(tree, subject, [], top=True)
+    return cons, groups
+
+
 def anchored(pattern: str):
     """(starts with ^, ends with $) of a pattern."""
     tree = list(sre_parse.parse(pattern))
